@@ -121,6 +121,14 @@ def observe_state(history, part, table):
     """All entry points x all explicit/default combinations in the state reached by history."""
     import colorful
     colorful.disable()
+    # PrettyPrinter objects constructed *earlier* in the history (in the pristine state, and after its
+    # first step): settings they were not given are defaults, and defaults are read when they are used
+    pp0 = pristine_module()
+    early = {freeze(kw): pp0.PrettyPrinter(**kw) for kw in explicit_combos()} if history else {}
+    mid = {}
+    if len(history) >= 2:
+        pp0.set_default_config(**history[0])
+        mid = {freeze(kw): pp0.PrettyPrinter(**kw) for kw in explicit_combos()}
     pp, model = replay_to(history)
     vals = probes()
     if dict(pp.get_default_config()) != model:
@@ -155,6 +163,10 @@ def observe_state(history, part, table):
                 pp.cpprint(v, stream=s, end='', **kw)
                 expect('cpprint(colour off)', s.getvalue())
                 expect('PrettyPrinter.pformat', pp.PrettyPrinter(**kw).pformat(v))
+                if early:
+                    expect('PrettyPrinter constructed before the history, .pformat now', early[freeze(kw)].pformat(v))
+                if mid:
+                    expect('PrettyPrinter constructed after the first step, .pformat now', mid[freeze(kw)].pformat(v))
                 s = io.StringIO()
                 pp.PrettyPrinter(stream=s, **kw).pprint(v)
                 out = s.getvalue()
